@@ -28,6 +28,8 @@ VERIF = Path(__file__).resolve().parent.parent
 LEAN_DIR = Path(os.environ.get("VERIF_LEAN_DIR", VERIF / "lean"))
 REPO = Path(os.environ.get("VERIF_REPO", "/repo"))
 LOCK = LEAN_DIR / ".build.lock"
+# runs against a scratch tree (seeded change under test) must not overwrite the committed evidence
+OUT_DIR = Path(os.environ.get("VERIF_OUT_DIR", VERIF))
 STD_AXIOMS = {"propext", "Classical.choice", "Quot.sound"}
 FORBIDDEN = re.compile(
     r"\bsorry\b|\badmit\b|^\s*axiom\s|native_decide|bv_decide|implemented_by|\bunsafe\s|maxHeartbeats\s+0\b",
@@ -427,11 +429,11 @@ def load_known(pid: str):
 
 
 def write_replay(pid: str, payload: dict) -> str:
-    d = VERIF / "replays" / pid
+    d = OUT_DIR / "replays" / pid
     d.mkdir(parents=True, exist_ok=True)
     path = d / f"{sha(payload)}.json"
     path.write_text(json.dumps(jsonable(payload), indent=1, sort_keys=True))
-    return str(path.relative_to(VERIF))
+    return str(path.relative_to(VERIF)) if OUT_DIR == VERIF else str(path)
 
 
 def run_property(prop: Property, argv=None):
@@ -629,8 +631,8 @@ def _run_property(prop: Property, ctx: Ctx, a) -> int:
         ev["coverage"]["obligations_total"] = ev["coverage"].pop("obligations")
         ev["coverage"]["obligations_discharged"] = ev["coverage"].pop("discharged")
         ev["coverage"]["evaluations"] = max(ev["coverage"]["evaluations"], 1)
-    (VERIF / "evidence").mkdir(exist_ok=True)
-    (VERIF / "evidence" / f"{pid}.json").write_text(json.dumps(jsonable(ev), indent=1))
+    (OUT_DIR / "evidence").mkdir(parents=True, exist_ok=True)
+    (OUT_DIR / "evidence" / f"{pid}.json").write_text(json.dumps(jsonable(ev), indent=1))
     for l in lines:
         print(l)
     status = "ok" if rc == 0 else "VIOLATED"
